@@ -13,6 +13,7 @@ inside them, so an edit of those expressions in the Rust source re-opens exactly
 these obligations.
 -/
 import VarlinkVerif.Lemmas.Pool
+import VarlinkVerif.Lemmas.PoolDrain
 
 namespace VV
 
@@ -248,6 +249,53 @@ theorem C14_no_stranding (initial max : Nat) (hi : 0 < initial) (steps : List PS
   rcases h.spare.1 hacc with h1 | h1
   · omega
   · omega
+
+/-- **C14 progress**: whenever a connection waits in the queue while fewer than
+    `max` are in service and the acceptor is back in `accept`, some *worker* step
+    is enabled (a dequeue, the start of a held job, or the decrement after a
+    finished one): serving the waiting connection never depends on another
+    connection finishing or a further one arriving. -/
+theorem C14_progress (initial max : Nat) (hi : 0 < initial) (steps : List PStep)
+    (hacc : (Pool.run (Pool.init initial max) steps).acc = .accepting)
+    (hq : Pool.queuedJobs (Pool.run (Pool.init initial max) steps) > 0)
+    (hlt : Pool.serving (Pool.run (Pool.init initial max) steps) < max) :
+    Pool.enabled (Pool.run (Pool.init initial max) steps) .deq = true ∨
+    (∃ j, Pool.enabled (Pool.run (Pool.init initial max) steps) (.start j) = true) ∨
+    (∃ j, Pool.enabled (Pool.run (Pool.init initial max) steps) (.dec j) = true) := by
+  have hns := C14_no_stranding initial max hi steps
+  have hm := run_max steps (Pool.init initial max)
+  have hclean := (drain_run steps _ (drain_init initial max)).clean
+  generalize Pool.run (Pool.init initial max) steps = s at *
+  have hmax : s.max = max := by simpa [Pool.init] using hm
+  -- not every worker is running, otherwise the state would be stranded
+  have hex : ∃ w ∈ s.workers, w.isRunning = false := by
+    apply Classical.byContradiction
+    intro hno
+    apply hns
+    refine ⟨hacc, hq, ?_, by rw [hmax]; exact hlt⟩
+    intro w hw
+    cases hr : w.isRunning with
+    | true => rfl
+    | false => exact absurd ⟨w, hw, hr⟩ hno
+  obtain ⟨w, hw, hr⟩ := hex
+  have hnoterm := (hclean (by rw [hacc]; simp)).2
+  have hqne : s.queue.isEmpty = false := by
+    cases hqq : s.queue with
+    | nil => simp [Pool.queuedJobs, hqq] at hq
+    | cons _ _ => rfl
+  cases w with
+  | idle =>
+    left
+    simp only [Pool.enabled, hqne, Bool.not_false, Bool.and_true]
+    exact List.any_eq_true.mpr ⟨.idle, hw, rfl⟩
+  | holding j =>
+    right; left
+    exact ⟨j, by simp only [Pool.enabled]; exact List.any_eq_true.mpr ⟨.holding j, hw, by simp⟩⟩
+  | running j => simp [WPc.isRunning] at hr
+  | done j =>
+    right; right
+    exact ⟨j, by simp only [Pool.enabled]; exact List.any_eq_true.mpr ⟨.done j, hw, by simp⟩⟩
+  | terminated => exact absurd hw hnoterm
 
 /-- non-vacuity: the three-quick-arrivals schedule with two idle workers and
     max = 4 reaches a state with a queued job while both first workers still
